@@ -29,7 +29,9 @@ def specStep (spec : String → PStatus) (s : St) (op : Op) (res : Res) : String
   | .tombstone b, _ => fun x => if x = b then .gone else spec x
   | _, _ => spec
 
-/-- The directory implements the specification. -/
+/-- The directory implements the specification. The last conjunct is the index form of the one
+    before it (two distinct slots of `writers` never hold open writers of the same base); the value
+    form alone does not exclude the same open writer record sitting in two slots. -/
 def Refines (s : St) (spec : String → PStatus) : Prop :=
   (∀ b, match spec b with
     | .gone => s.fs.lookup (dat b) = none ∧ s.fs.lookup (tmp b) = none
@@ -37,34 +39,784 @@ def Refines (s : St) (spec : String → PStatus) : Prop :=
         (∃ w ∈ s.writers, w.base = b ∧ w.closed = false ∧ s.fs.lookup (tmp b) = some w.ino ∧ s.fs.data w.ino = bs)
     | .published bs => (∃ i, s.fs.lookup (dat b) = some i ∧ s.fs.data i = bs) ∧ s.fs.lookup (tmp b) = none) ∧
   (∀ w ∈ s.writers, w.closed = false → ∃ bs, spec w.base = .writing bs) ∧
-  (∀ w1 ∈ s.writers, ∀ w2 ∈ s.writers, w1.closed = false → w2.closed = false → w1.base = w2.base → w1 = w2)
+  (∀ w1 ∈ s.writers, ∀ w2 ∈ s.writers, w1.closed = false → w2.closed = false → w1.base = w2.base → w1 = w2) ∧
+  (∀ (k1 k2 : Nat) (w1 w2 : Writer), s.writers[k1]? = some w1 → s.writers[k2]? = some w2 →
+    w1.closed = false → w2.closed = false → w1.base = w2.base → k1 = k2)
+
+/-- Well-formedness of the directory the refinement needs: inode numbers in use are below `next`,
+    each inode has one data entry, distinct paths are bound to distinct inodes (no hard links), and
+    every allocated inode number has a data entry. -/
+def FSWF (fs : FS) : Prop :=
+  (∀ p i, fs.lookup p = some i → i < fs.next) ∧ (∀ i, (fs.inodes.lookup i).isSome → i < fs.next) ∧
+  (fs.inodes.map (·.1)).Nodup ∧ (fs.names.map (·.1)).Nodup ∧
+  (∀ p q i, fs.lookup p = some i → fs.lookup q = some i → p = q) ∧
+  (∀ i, i < fs.next → (fs.inodes.lookup i).isSome)
+
+/-! ## Assoc-list and primitive-operation lemmas -/
+
+theorem lookup_filter_key {β} (f : String → Bool) (l : List (String × β)) (q : String) :
+    (l.filter (fun x => f x.1)).lookup q = if f q then l.lookup q else none := by
+  induction l with
+  | nil => simp
+  | cons x l ih =>
+    obtain ⟨k, v⟩ := x
+    by_cases hk : f k
+    · simp only [List.filter_cons, hk, if_true, List.lookup_cons]
+      by_cases hq : q = k
+      · subst hq; simp [hk]
+      · have : (q == k) = false := by simpa using hq
+        simp [this, ih]
+    · simp only [List.filter_cons, hk, List.lookup_cons]
+      by_cases hq : q = k
+      · subst hq; simp [hk, ih]
+      · have : (q == k) = false := by simpa using hq
+        simp [this, ih]
+
+theorem lookup_none_iff_not_mem_keys {α β} [BEq α] [LawfulBEq α] (l : List (α × β)) (q : α) :
+    l.lookup q = none ↔ q ∉ l.map (·.1) := by
+  rw [List.lookup_eq_none_iff]
+  simp only [List.mem_map, not_exists, not_and, bne_iff_ne, ne_eq]
+  constructor
+  · intro h x hx e; exact h x hx e.symm
+  · intro h x hx e; exact h x hx e.symm
+
+/-! ### remove -/
+theorem lookup_remove (fs : FS) (p q : String) :
+    (fs.remove p).lookup q = if q = p then none else fs.lookup q := by
+  unfold FS.remove FS.lookup
+  have := lookup_filter_key (fun k => k != p) fs.names q
+  simp only [this]
+  by_cases h : q = p <;> simp [h]
+
+theorem data_remove (fs : FS) (p : String) (j : Nat) : (fs.remove p).data j = fs.data j := rfl
+
+theorem FSWF_remove {fs : FS} (h : FSWF fs) (p : String) : FSWF (fs.remove p) := by
+  obtain ⟨h1, h2, h3, h4, h5, h6⟩ := h
+  refine ⟨?_, h2, h3, ?_, ?_, h6⟩
+  · intro q i hq
+    rw [lookup_remove] at hq
+    split at hq
+    · cases hq
+    · exact h1 q i hq
+  · exact List.Nodup.sublist (List.Sublist.map _ List.filter_sublist) h4
+  · intro q1 q2 i hq1 hq2
+    rw [lookup_remove] at hq1 hq2
+    split at hq1
+    · cases hq1
+    · split at hq2
+      · cases hq2
+      · exact h5 q1 q2 i hq1 hq2
+
+/-! ### createExcl -/
+def FS.mk1 (fs : FS) (p : String) : FS :=
+  { fs with names := fs.names ++ [(p, fs.next)], inodes := fs.inodes ++ [(fs.next, [])], next := fs.next + 1 }
+
+theorem createExcl_some {fs fs1 : FS} {p : String} {i : Nat} (h : fs.createExcl p = some (fs1, i)) :
+    fs.lookup p = none ∧ i = fs.next ∧ fs1 = fs.mk1 p := by
+  unfold FS.createExcl at h
+  split at h
+  · cases h
+  · rename_i hn
+    simp only [Option.some.injEq, Prod.mk.injEq] at h
+    exact ⟨hn, h.2.symm, h.1.symm⟩
+
+theorem createExcl_none {fs : FS} {p : String} (h : fs.createExcl p = none) : ∃ i, fs.lookup p = some i := by
+  unfold FS.createExcl at h
+  split at h
+  · rename_i i hi; exact ⟨i, hi⟩
+  · cases h
+
+theorem lookup_mk1 (fs : FS) (p q : String) (hp : fs.lookup p = none) :
+    (fs.mk1 p).lookup q = if q = p then some fs.next else fs.lookup q := by
+  unfold FS.mk1 FS.lookup at *
+  simp only [List.lookup_append]
+  by_cases h : q = p
+  · subst h; simp [hp]
+  · have : (q == p) = false := by simpa using h
+    simp [h, List.lookup_cons, this]
+
+theorem data_mk1 (fs : FS) (p : String) (j : Nat) : (fs.mk1 p).data j = fs.data j := by
+  unfold FS.mk1 FS.data
+  simp only [List.lookup_append]
+  cases h : List.lookup j fs.inodes with
+  | some v => simp
+  | none =>
+    by_cases hj : j = fs.next
+    · simp [hj]
+    · have : (j == fs.next) = false := by simpa using hj
+      simp [List.lookup_cons, this]
+
+theorem next_mk1 (fs : FS) (p : String) : (fs.mk1 p).next = fs.next + 1 := rfl
+
+theorem FSWF_mk1 {fs : FS} (h : FSWF fs) (p : String) (hp : fs.lookup p = none) : FSWF (fs.mk1 p) := by
+  obtain ⟨h1, h2, h3, h4, h5, h6⟩ := h
+  have hfresh : fs.inodes.lookup fs.next = none := by
+    cases hh : fs.inodes.lookup fs.next with
+    | none => rfl
+    | some v => have := h2 fs.next (by simp [hh]); omega
+  refine ⟨?_, ?_, ?_, ?_, ?_, ?_⟩
+  · intro q i hq
+    rw [lookup_mk1 _ _ _ hp] at hq
+    rw [next_mk1]
+    split at hq
+    · cases hq; omega
+    · have := h1 q i hq; omega
+  · intro i hi
+    rw [next_mk1]
+    simp only [FS.mk1, List.lookup_append] at hi
+    cases hh : List.lookup i fs.inodes with
+    | some v => have := h2 i (by simp [hh]); omega
+    | none =>
+      by_cases hj : i = fs.next
+      · omega
+      · have : (i == fs.next) = false := by simpa using hj
+        simp [hh, List.lookup_cons, this] at hi
+  · simp only [FS.mk1, List.map_append, List.map_cons, List.map_nil]
+    rw [List.nodup_append]
+    refine ⟨h3, by simp, ?_⟩
+    intro a ha b hb
+    simp at hb; subst hb
+    intro e; subst e
+    exact (lookup_none_iff_not_mem_keys _ _).1 hfresh ha
+  · simp only [FS.mk1, List.map_append, List.map_cons, List.map_nil]
+    rw [List.nodup_append]
+    refine ⟨h4, by simp, ?_⟩
+    intro a ha b hb
+    simp at hb; subst hb
+    intro e; subst e
+    exact (lookup_none_iff_not_mem_keys _ _).1 hp ha
+  · intro q1 q2 i hq1 hq2
+    rw [lookup_mk1 _ _ _ hp] at hq1 hq2
+    split at hq1
+    · split at hq2
+      · simp [*]
+      · cases hq1; have := h1 q2 _ hq2; omega
+    · split at hq2
+      · cases hq2; have := h1 q1 _ hq1; omega
+      · exact h5 q1 q2 i hq1 hq2
+  · intro i hi
+    rw [next_mk1] at hi
+    simp only [FS.mk1, List.lookup_append]
+    by_cases hj : i = fs.next
+    · subst hj; simp [hfresh]
+    · have := h6 i (by omega)
+      cases hh : List.lookup i fs.inodes with
+      | some v => simp
+      | none => simp [hh] at this
+
+/-! ### rename -/
+def FS.mv (fs : FS) (a b : String) (i : Nat) : FS :=
+  { fs with names := (fs.names.filter (fun x => x.1 != a && x.1 != b)) ++ [(b, i)] }
+
+theorem rename_eq {fs : FS} {a : String} {i : Nat} (h : fs.lookup a = some i) (b : String) :
+    fs.rename a b = some (fs.mv a b i) := by
+  unfold FS.rename; rw [h]; rfl
+
+theorem lookup_mv (fs : FS) (a b q : String) (i : Nat) :
+    (fs.mv a b i).lookup q = if q = b then some i else if q = a then none else fs.lookup q := by
+  unfold FS.mv FS.lookup
+  simp only [List.lookup_append]
+  have := lookup_filter_key (fun k => k != a && k != b) fs.names q
+  simp only [this]
+  by_cases hb : q = b
+  · subst hb; simp
+  · have hb' : (q == b) = false := by simpa using hb
+    by_cases ha : q = a
+    · subst ha; simp [List.lookup_cons, hb', hb]
+    · simp [List.lookup_cons, hb', hb, ha]
+
+theorem data_mv (fs : FS) (a b : String) (i j : Nat) : (fs.mv a b i).data j = fs.data j := rfl
+
+theorem FSWF_mv {fs : FS} (h : FSWF fs) {a : String} {i : Nat} (ha : fs.lookup a = some i) (b : String) :
+    FSWF (fs.mv a b i) := by
+  obtain ⟨h1, h2, h3, h4, h5, h6⟩ := h
+  refine ⟨?_, h2, h3, ?_, ?_, h6⟩
+  · intro q j hq
+    rw [lookup_mv] at hq
+    show j < fs.next
+    split at hq
+    · cases hq; exact h1 a _ ha
+    · split at hq
+      · cases hq
+      · exact h1 q j hq
+  · simp only [FS.mv, List.map_append, List.map_cons, List.map_nil]
+    rw [List.nodup_append]
+    refine ⟨List.Nodup.sublist (List.Sublist.map _ List.filter_sublist) h4, by simp, ?_⟩
+    intro x hx y hy
+    simp at hy; subst hy
+    intro e; subst e
+    simp only [List.mem_map, List.mem_filter] at hx
+    obtain ⟨z, ⟨_, hz⟩, rfl⟩ := hx
+    simp at hz
+  · intro q1 q2 j hq1 hq2
+    rw [lookup_mv] at hq1 hq2
+    by_cases e1 : q1 = b
+    · by_cases e2 : q2 = b
+      · rw [e1, e2]
+      · simp only [e1, if_true, Option.some.injEq] at hq1
+        simp only [e2, if_false] at hq2
+        by_cases e3 : q2 = a
+        · simp [e3] at hq2
+        · simp only [e3, if_false] at hq2
+          subst hq1
+          exact absurd (h5 _ _ _ hq2 ha) e3
+    · simp only [e1, if_false] at hq1
+      by_cases e4 : q1 = a
+      · simp [e4] at hq1
+      · simp only [e4, if_false] at hq1
+        by_cases e2 : q2 = b
+        · simp only [e2, if_true, Option.some.injEq] at hq2
+          subst hq2
+          exact absurd (h5 _ _ _ hq1 ha) e4
+        · simp only [e2, if_false] at hq2
+          by_cases e3 : q2 = a
+          · simp [e3] at hq2
+          · simp only [e3, if_false] at hq2
+            exact h5 q1 q2 j hq1 hq2
+
+/-! ### append -/
+theorem lookup_map_upd (l : List (Nat × Bytes)) (i j : Nat) (bs : Bytes) :
+    (l.map (fun x => if x.1 == i then (i, x.2 ++ bs) else x)).lookup j =
+      if j = i then (l.lookup j).map (· ++ bs) else l.lookup j := by
+  induction l with
+  | nil => simp
+  | cons x l ih =>
+    obtain ⟨k, v⟩ := x
+    rw [List.map_cons]
+    by_cases hk : k = i
+    · subst hk
+      have e : (if ((k, v).1 == k) = true then (k, (k, v).2 ++ bs) else (k, v)) = (k, v ++ bs) := by simp
+      rw [e, List.lookup_cons, List.lookup_cons]
+      by_cases hj : j = k
+      · subst hj; simp
+      · have : (j == k) = false := by simpa using hj
+        rw [this]; exact ih
+    · have e : (if ((k, v).1 == i) = true then (i, (k, v).2 ++ bs) else (k, v)) = (k, v) := by simp [hk]
+      rw [e, List.lookup_cons, List.lookup_cons]
+      by_cases hj : j = k
+      · subst hj; simp [hk]
+      · have : (j == k) = false := by simpa using hj
+        rw [this]; exact ih
+
+theorem keys_map_upd (l : List (Nat × Bytes)) (i : Nat) (bs : Bytes) :
+    (l.map (fun x => if x.1 == i then (i, x.2 ++ bs) else x)).map (·.1) = l.map (·.1) := by
+  induction l with
+  | nil => rfl
+  | cons x l ih =>
+    simp only [List.map_cons, ih]
+    by_cases hk : x.1 = i
+    · simp [hk]
+    · have hk' : (x.1 == i) = false := by simpa using hk
+      simp [hk']
+
+theorem lookup_append_fs (fs : FS) (i : Nat) (bs : Bytes) (p : String) :
+    (fs.append i bs).lookup p = fs.lookup p := rfl
+
+theorem data_append_ne (fs : FS) (i j : Nat) (bs : Bytes) (h : j ≠ i) :
+    (fs.append i bs).data j = fs.data j := by
+  unfold FS.append FS.data
+  simp only [lookup_map_upd, h, if_false]
+
+theorem data_append_self (fs : FS) (i : Nat) (bs : Bytes) (h : (fs.inodes.lookup i).isSome) :
+    (fs.append i bs).data i = fs.data i ++ bs := by
+  unfold FS.append FS.data
+  simp only [lookup_map_upd, if_true]
+  cases hh : List.lookup i fs.inodes with
+  | none => simp [hh] at h
+  | some v => simp
+
+theorem FSWF_append {fs : FS} (h : FSWF fs) (i : Nat) (bs : Bytes) : FSWF (fs.append i bs) := by
+  obtain ⟨h1, h2, h3, h4, h5, h6⟩ := h
+  refine ⟨h1, ?_, ?_, h4, h5, ?_⟩
+  · intro j hj
+    apply h2 j
+    simp only [FS.append, lookup_map_upd] at hj
+    split at hj
+    · simpa using hj
+    · exact hj
+  · simp only [FS.append, keys_map_upd]; exact h3
+  · intro j hj
+    have := h6 j hj
+    simp only [FS.append, lookup_map_upd]
+    split
+    · simpa using this
+    · exact this
+
+
+theorem data_fresh {fs : FS} (h : FSWF fs) {j : Nat} (hj : fs.next ≤ j) : fs.data j = [] := by
+  unfold FS.data
+  cases hh : fs.inodes.lookup j with
+  | none => rfl
+  | some v => have := h.2.1 j (by simp [hh]); omega
+
+/-! ## The draw loop -/
+
+/-- The loop settles on a directory `fsc` with the same bindings and data as the initial one
+    (only `next` may have grown), in which both names were free, and adds exactly the two files. -/
+theorem createLoop_char (fs fs' : FS) (draws : List String) (b : String) (i : Nat)
+    (h : createLoop fs draws = some (fs', b, i)) :
+    fs.lookup (dat b) = none ∧ fs.lookup (tmp b) = none ∧
+    ∃ fsc : FS, (∀ p, fsc.lookup p = fs.lookup p) ∧ (∀ j, fsc.data j = fs.data j) ∧ fs.next ≤ fsc.next ∧
+      (FSWF fs → FSWF fsc) ∧ (fsc.mk1 (dat b)).lookup (tmp b) = none ∧
+      fs' = (fsc.mk1 (dat b)).mk1 (tmp b) ∧ i = fsc.next + 1 := by
+  induction draws generalizing fs with
+  | nil => simp [createLoop] at h
+  | cons b' rest ih =>
+    unfold createLoop at h
+    cases h1 : fs.createExcl (dat b') with
+    | none => rw [h1] at h; exact ih fs h
+    | some r1 =>
+      obtain ⟨fs1, r⟩ := r1
+      obtain ⟨hd, _, rfl⟩ := createExcl_some h1
+      rw [h1] at h
+      simp only at h
+      cases h2 : (fs.mk1 (dat b')).createExcl (tmp b') with
+      | none =>
+        rw [h2] at h
+        simp only at h
+        have hsame : ∀ p, ((fs.mk1 (dat b')).remove (dat b')).lookup p = fs.lookup p := by
+          intro p
+          rw [lookup_remove, lookup_mk1 _ _ _ hd]
+          by_cases hp : p = dat b'
+          · simp [hp, hd]
+          · simp [hp]
+        obtain ⟨g1, g2, fsc, c1, c2, c3, c4, c5, c6, c7⟩ := ih _ h
+        refine ⟨by rw [← hsame]; exact g1, by rw [← hsame]; exact g2, fsc, ?_, ?_, ?_, ?_, c5, c6, c7⟩
+        · intro p; rw [c1, hsame]
+        · intro j; rw [c2, data_remove, data_mk1]
+        · have : ((fs.mk1 (dat b')).remove (dat b')).next = fs.next + 1 := rfl
+          omega
+        · intro hw; exact c4 (FSWF_remove (FSWF_mk1 hw _ hd) _)
+      | some r2 =>
+        obtain ⟨fs2, i'⟩ := r2
+        rw [h2] at h
+        simp only [Option.some.injEq, Prod.mk.injEq] at h
+        obtain ⟨rfl, rfl, rfl⟩ := h
+        obtain ⟨ht, hi, rfl⟩ := createExcl_some h2
+        refine ⟨hd, ?_, fs, fun _ => rfl, fun _ => rfl, Nat.le_refl _, id, ht, rfl, ?_⟩
+        · rw [lookup_mk1 _ _ _ hd] at ht
+          split at ht
+          · cases ht
+          · exact ht
+        · rw [hi]; rfl
 
 theorem createLoop_frame_aux (fs fs' : FS) (draws : List String) (b : String) (i : Nat)
     (h : createLoop fs draws = some (fs', b, i)) :
     fs.lookup (dat b) = none ∧ fs.lookup (tmp b) = none ∧
     (∀ p j, fs.lookup p = some j → fs'.lookup p = some j ∧ fs'.data j = fs.data j) := by
-  sorry
+  obtain ⟨g1, g2, fsc, c1, c2, _, _, c5, rfl, _⟩ := createLoop_char fs fs' draws b i h
+  refine ⟨g1, g2, ?_⟩
+  intro p j hp
+  have hd : fsc.lookup (dat b) = none := by rw [c1]; exact g1
+  have hpd : p ≠ dat b := by intro e; rw [e, g1] at hp; cases hp
+  have hpt : p ≠ tmp b := by intro e; rw [e, g2] at hp; cases hp
+  refine ⟨?_, ?_⟩
+  · rw [lookup_mk1 _ _ _ c5, if_neg hpt, lookup_mk1 _ _ _ hd, if_neg hpd, c1, hp]
+  · rw [data_mk1, data_mk1, c2]
+
+/-- Everything the refinement needs to know about a successful CreateFile. -/
+theorem createLoop_spec (fs fs' : FS) (draws : List String) (b : String) (i : Nat) (hw : FSWF fs)
+    (h : createLoop fs draws = some (fs', b, i)) :
+    fs.lookup (dat b) = none ∧ fs.lookup (tmp b) = none ∧
+    (∃ r, fs'.lookup (dat b) = some r ∧ fs'.data r = []) ∧ fs'.lookup (tmp b) = some i ∧ fs'.data i = [] ∧
+    (∀ p, p ≠ dat b → p ≠ tmp b → fs'.lookup p = fs.lookup p) ∧ (∀ j, fs'.data j = fs.data j) ∧
+    FSWF fs' ∧ fs.next ≤ fs'.next ∧ i < fs'.next := by
+  obtain ⟨g1, g2, fsc, c1, c2, c3, c4, c5, rfl, rfl⟩ := createLoop_char fs fs' draws b i h
+  have hd : fsc.lookup (dat b) = none := by rw [c1]; exact g1
+  have hdata : ∀ j, ((fsc.mk1 (dat b)).mk1 (tmp b)).data j = fs.data j := by
+    intro j; rw [data_mk1, data_mk1, c2]
+  have hne : tmp b ≠ dat b := by
+    intro e
+    rw [lookup_mk1 _ _ _ hd, if_pos e] at c5
+    cases c5
+  refine ⟨g1, g2, ⟨fsc.next, ?_, ?_⟩, ?_, ?_, ?_, hdata, ?_, ?_, ?_⟩
+  · rw [lookup_mk1 _ _ _ c5, if_neg (Ne.symm hne), lookup_mk1 _ _ _ hd, if_pos rfl]
+  · rw [hdata]; exact data_fresh hw c3
+  · rw [lookup_mk1 _ _ _ c5, if_pos rfl]; rfl
+  · rw [hdata]; exact data_fresh hw (by omega)
+  · intro p hpd hpt
+    rw [lookup_mk1 _ _ _ c5, if_neg hpt, lookup_mk1 _ _ _ hd, if_neg hpd, c1]
+  · exact FSWF_mk1 (FSWF_mk1 (c4 hw) _ hd) _ c5
+  · show fs.next ≤ fsc.next + 1 + 1
+    omega
+  · show fsc.next + 1 < fsc.next + 1 + 1
+    omega
 
 theorem tombstone_removes_all_aux (s : St) (b : String) :
     (step s (.tombstone b)).1.fs.lookup (dat b) = none ∧ (step s (.tombstone b)).1.fs.lookup (tmp b) = none ∧
     (∀ p, p ≠ dat b → p ≠ tmp b → (step s (.tombstone b)).1.fs.lookup p = s.fs.lookup p) := by
-  sorry
-
-/-- Well-formedness of the directory the refinement needs: inode numbers in use are below `next`
-    and each inode has one data entry. -/
-def FSWF (fs : FS) : Prop :=
-  (∀ p i, fs.lookup p = some i → i < fs.next) ∧ (∀ i, (fs.inodes.lookup i).isSome → i < fs.next) ∧
-  (fs.inodes.map (·.1)).Nodup ∧ (fs.names.map (·.1)).Nodup
+  simp only [step]
+  refine ⟨?_, ?_, ?_⟩
+  · rw [lookup_remove, lookup_remove]; simp
+  · rw [lookup_remove]; simp
+  · intro p h1 h2
+    rw [lookup_remove, lookup_remove, if_neg h2, if_neg h1]
 
 theorem refines_init_aux : Refines {} (fun _ => .gone) ∧ FSWF ({} : St).fs := by
-  sorry
+  refine ⟨⟨?_, ?_, ?_, ?_⟩, ?_, ?_, ?_, ?_, ?_, ?_⟩
+  · intro b; exact ⟨rfl, rfl⟩
+  · intro w hw; cases hw
+  · intro w hw; cases hw
+  · intro k1 k2 w1 w2 h1; simp at h1
+  · intro p i h; cases h
+  · intro i h; cases h
+  · exact List.nodup_nil
+  · exact List.nodup_nil
+  · intro p q i h; cases h
+  · intro i h; cases h
+
+/-! ## The refinement step -/
+
+/-- What the directory must look like for one pointer in a given specification status. -/
+def PtrOK (s : St) (st : PStatus) (b : String) : Prop :=
+  match st with
+  | .gone => s.fs.lookup (dat b) = none ∧ s.fs.lookup (tmp b) = none
+  | .writing bs => (∃ r, s.fs.lookup (dat b) = some r ∧ s.fs.data r = []) ∧
+      (∃ w ∈ s.writers, w.base = b ∧ w.closed = false ∧ s.fs.lookup (tmp b) = some w.ino ∧ s.fs.data w.ino = bs)
+  | .published bs => (∃ i, s.fs.lookup (dat b) = some i ∧ s.fs.data i = bs) ∧ s.fs.lookup (tmp b) = none
+
+theorem refines_ptr {s : St} {spec : String → PStatus} (h : Refines s spec) (b : String) :
+    PtrOK s (spec b) b := h.1 b
+
+theorem idx_to_mem {ws : List Writer}
+    (h : ∀ (k1 k2 : Nat) (w1 w2 : Writer), ws[k1]? = some w1 → ws[k2]? = some w2 →
+      w1.closed = false → w2.closed = false → w1.base = w2.base → k1 = k2) :
+    ∀ w1 ∈ ws, ∀ w2 ∈ ws, w1.closed = false → w2.closed = false → w1.base = w2.base → w1 = w2 := by
+  intro w1 h1 w2 h2 c1 c2 hb
+  obtain ⟨k1, e1⟩ := List.mem_iff_getElem?.1 h1
+  obtain ⟨k2, e2⟩ := List.mem_iff_getElem?.1 h2
+  have := h k1 k2 w1 w2 e1 e2 c1 c2 hb
+  subst this
+  rw [e1] at e2
+  exact Option.some.inj e2
+
+theorem refines_intro {s : St} {spec : String → PStatus} (h1 : ∀ b, PtrOK s (spec b) b)
+    (h2 : ∀ w ∈ s.writers, w.closed = false → ∃ bs, spec w.base = .writing bs)
+    (h4 : ∀ (k1 k2 : Nat) (w1 w2 : Writer), s.writers[k1]? = some w1 → s.writers[k2]? = some w2 →
+      w1.closed = false → w2.closed = false → w1.base = w2.base → k1 = k2) : Refines s spec :=
+  ⟨h1, h2, idx_to_mem h4, h4⟩
+
+theorem PtrOK.frame {s s' : St} {st : PStatus} {b : String} (h : PtrOK s st b)
+    (hd : s'.fs.lookup (dat b) = s.fs.lookup (dat b))
+    (ht : s'.fs.lookup (tmp b) = s.fs.lookup (tmp b))
+    (hdata : ∀ j, (s.fs.lookup (dat b) = some j ∨ s.fs.lookup (tmp b) = some j) → s'.fs.data j = s.fs.data j)
+    (hwri : ∀ w ∈ s.writers, w.base = b → w.closed = false → w ∈ s'.writers) : PtrOK s' st b := by
+  cases st with
+  | gone => simp only [PtrOK] at h ⊢; rw [hd, ht]; exact h
+  | writing bs =>
+    simp only [PtrOK] at h ⊢
+    obtain ⟨⟨r, hr1, hr2⟩, w, hw1, hw2, hw3, hw4, hw5⟩ := h
+    refine ⟨⟨r, by rw [hd]; exact hr1, by rw [hdata r (Or.inl hr1)]; exact hr2⟩, w, hwri w hw1 hw2 hw3, hw2, hw3,
+      by rw [ht]; exact hw4, by rw [hdata _ (Or.inr hw4)]; exact hw5⟩
+  | published bs =>
+    simp only [PtrOK] at h ⊢
+    obtain ⟨⟨r, hr1, hr2⟩, h2⟩ := h
+    exact ⟨⟨r, by rw [hd]; exact hr1, by rw [hdata r (Or.inl hr1)]; exact hr2⟩, by rw [ht]; exact h2⟩
+
+/-- The open writer at index `k` as the directory sees it. -/
+theorem open_view {s : St} {spec : String → PStatus} (hr : Refines s spec) {k : Nat} {w : Writer}
+    (hk : s.writers[k]? = some w) (ho : w.closed = false) :
+    ∃ old r, spec w.base = .writing old ∧ s.fs.lookup (dat w.base) = some r ∧ s.fs.data r = [] ∧
+      s.fs.lookup (tmp w.base) = some w.ino ∧ s.fs.data w.ino = old := by
+  have hm : w ∈ s.writers := List.mem_iff_getElem?.2 ⟨k, hk⟩
+  obtain ⟨old, hs⟩ := hr.2.1 w hm ho
+  have hp := refines_ptr hr w.base
+  rw [hs] at hp
+  simp only [PtrOK] at hp
+  obtain ⟨⟨r, hr1, hr2⟩, w', hw1, hw2, hw3, hw4, hw5⟩ := hp
+  have : w' = w := hr.2.2.1 w' hw1 w hm hw3 ho hw2
+  subst this
+  exact ⟨old, r, hs, hr1, hr2, hw4, hw5⟩
+
+theorem getElem?_set_open {l : List Writer} {k j : Nat} {x w' : Writer} (h : (l.set k x)[j]? = some w')
+    (hx : x.closed = true) (ho : w'.closed = false) : j ≠ k ∧ l[j]? = some w' := by
+  rw [List.getElem?_set] at h
+  split at h
+  · split at h
+    · cases h; rw [hx] at ho; cases ho
+    · cases h
+  · rename_i hne; exact ⟨fun e => hne e.symm, h⟩
+
+theorem mem_set_of_base_ne {l : List Writer} {k : Nat} {w x w' : Writer} (hk : l[k]? = some w) (hm : w' ∈ l)
+    (hne : w'.base ≠ w.base) : w' ∈ l.set k x := by
+  obtain ⟨j, hj⟩ := List.mem_iff_getElem?.1 hm
+  have : k ≠ j := by
+    intro e; subst e; rw [hk] at hj; cases hj; exact hne rfl
+  exact List.mem_iff_getElem?.2 ⟨j, by rw [List.getElem?_set, if_neg this]; exact hj⟩
+
+/-- The full inductive invariant. -/
+def Good (s : St) (spec : String → PStatus) : Prop :=
+  Refines s spec ∧ FSWF s.fs ∧ (∀ w ∈ s.writers, w.ino < s.fs.next)
+
+abbrev HBase : Prop :=
+  ∀ b1 b2 : String, (dat b1 = dat b2 → b1 = b2) ∧ (tmp b1 = tmp b2 → b1 = b2) ∧ dat b1 ≠ tmp b2
+
+theorem step_create {s : St} {spec : String → PStatus} (hbase : HBase) (hg : Good s spec) (draws : List String) :
+    Good (step s (.create draws)).1 (specStep spec s (.create draws) (step s (.create draws)).2) := by
+  cases hc : createLoop s.fs draws with
+  | none => simp only [step, hc, specStep]; exact hg
+  | some r =>
+    obtain ⟨fs', b, i⟩ := r
+    simp only [step, hc, specStep]
+    obtain ⟨hr, hw, hwr⟩ := hg
+    obtain ⟨g1, g2, ⟨r, gr1, gr2⟩, g3, g4, g5, g6, g7, g8, g9⟩ := createLoop_spec _ _ _ _ _ hw hc
+    -- no open writer already uses the base
+    have hnob : ∀ w ∈ s.writers, w.closed = false → w.base ≠ b := by
+      intro w hm ho e
+      obtain ⟨k, hk⟩ := List.mem_iff_getElem?.1 hm
+      obtain ⟨old, r', _, h2, _⟩ := open_view hr hk ho
+      rw [e, g1] at h2; cases h2
+    refine ⟨refines_intro ?_ ?_ ?_, g7, ?_⟩
+    · intro x
+      show PtrOK _ (if x = b then PStatus.writing [] else spec x) x
+      by_cases hx : x = b
+      · subst hx
+        rw [if_pos rfl]
+        exact ⟨⟨r, gr1, gr2⟩, ⟨x, i, false, false⟩, by simp, rfl, rfl, g3, g4⟩
+      · rw [if_neg hx]
+        have hd : dat x ≠ dat b := fun e => hx ((hbase x b).1 e)
+        have ht : tmp x ≠ tmp b := fun e => hx ((hbase x b).2.1 e)
+        refine (refines_ptr hr x).frame ?_ ?_ ?_ ?_
+        · exact g5 _ hd (hbase x b).2.2
+        · exact g5 _ (fun e => (hbase b x).2.2 e.symm) ht
+        · intro j _; exact g6 j
+        · intro w hm _ _; exact List.mem_append_left _ hm
+    · intro w hm ho
+      show ∃ bs, (if w.base = b then PStatus.writing [] else spec w.base) = PStatus.writing bs
+      by_cases hx : w.base = b
+      · exact ⟨[], by rw [if_pos hx]⟩
+      · rw [if_neg hx]
+        rcases List.mem_append.1 hm with hm | hm
+        · exact hr.2.1 w hm ho
+        · simp at hm; subst hm; exact absurd rfl hx
+    · intro k1 k2 w1 w2 h1 h2 o1 o2 hb
+      simp only [List.getElem?_append] at h1 h2
+      split at h1
+      · split at h2
+        · exact hr.2.2.2 k1 k2 w1 w2 h1 h2 o1 o2 hb
+        · have hm1 : w1 ∈ s.writers := List.mem_iff_getElem?.2 ⟨k1, h1⟩
+          have : w2 = ⟨b, i, false, false⟩ := by
+            have := List.mem_of_getElem? h2; simpa using this
+          subst this
+          exact absurd hb (hnob w1 hm1 o1)
+      · have e1 : w1 = ⟨b, i, false, false⟩ := by
+          have := List.mem_of_getElem? h1; simpa using this
+        split at h2
+        · have hm2 : w2 ∈ s.writers := List.mem_iff_getElem?.2 ⟨k2, h2⟩
+          subst e1
+          exact absurd hb.symm (hnob w2 hm2 o2)
+        · have hl1 := (List.getElem?_eq_some_iff.1 h1).1
+          have hl2 := (List.getElem?_eq_some_iff.1 h2).1
+          simp at hl1 hl2
+          omega
+    · intro w hm
+      show w.ino < fs'.next
+      rcases List.mem_append.1 hm with hm | hm
+      · have := hwr w hm; omega
+      · simp at hm; subst hm; exact g9
+
+theorem step_write {s : St} {spec : String → PStatus} (hbase : HBase) (hg : Good s spec) (k : Nat) (bs : Bytes) :
+    Good (step s (.write k bs)).1 (specStep spec s (.write k bs) (step s (.write k bs)).2) := by
+  cases hk : s.writers[k]? with
+  | none => simp only [step, hk, specStep]; exact hg
+  | some w =>
+    cases hc : w.closed with
+    | true => simp [step, hk, specStep, hc]; exact hg
+    | false =>
+      simp only [step, hk, specStep, hc, Bool.false_eq_true, if_false]
+      obtain ⟨hr, hw, hwr⟩ := hg
+      obtain ⟨old, r, v1, v2, v3, v4, v5⟩ := open_view hr hk hc
+      have hm : w ∈ s.writers := List.mem_iff_getElem?.2 ⟨k, hk⟩
+      have hinj := hw.2.2.2.2.1
+      have hent := hw.2.2.2.2.2 w.ino (hwr w hm)
+      refine ⟨refines_intro ?_ ?_ hr.2.2.2, FSWF_append hw _ _, hwr⟩
+      · intro x
+        show PtrOK _ (if x = w.base then _ else spec x) x
+        by_cases hx : x = w.base
+        · subst hx
+          rw [if_pos rfl, v1]
+          refine ⟨⟨r, v2, ?_⟩, w, hm, rfl, hc, v4, ?_⟩
+          · show (s.fs.append w.ino bs).data r = []
+            rw [data_append_ne _ _ _ _ ?_, v3]
+            intro e; subst e
+            exact (hbase w.base w.base).2.2 (hinj _ _ _ v2 v4)
+          · show (s.fs.append w.ino bs).data w.ino = old ++ bs
+            rw [data_append_self _ _ _ hent, v5]
+        · rw [if_neg hx]
+          refine (refines_ptr hr x).frame rfl rfl ?_ (fun w' hm' _ _ => hm')
+          intro j hj
+          apply data_append_ne
+          intro e; subst e
+          rcases hj with hj | hj
+          · exact (hbase x w.base).2.2 (hinj _ _ _ hj v4)
+          · exact hx ((hbase x w.base).2.1 (hinj _ _ _ hj v4))
+      · intro w' hm' ho'
+        obtain ⟨bs', hs'⟩ := hr.2.1 w' hm' ho'
+        show ∃ b, (if w'.base = w.base then _ else spec w'.base) = PStatus.writing b
+        by_cases hx : w'.base = w.base
+        · rw [if_pos hx, hs']; exact ⟨_, rfl⟩
+        · rw [if_neg hx]; exact ⟨_, hs'⟩
+
+theorem step_close {s : St} {spec : String → PStatus} (hbase : HBase) (hg : Good s spec) (k : Nat) :
+    Good (step s (.close k)).1 (specStep spec s (.close k) (step s (.close k)).2) := by
+  cases hk : s.writers[k]? with
+  | none => simp only [step, hk, specStep]; exact hg
+  | some w =>
+    cases hc : w.closed with
+    | true => simp [step, hk, specStep, hc]; exact hg
+    | false =>
+      obtain ⟨hr, hw, hwr⟩ := hg
+      obtain ⟨old, r, v1, v2, v3, v4, v5⟩ := open_view hr hk hc
+      simp only [step, hk, specStep, hc, Bool.false_eq_true, if_false, rename_eq v4, setWriter]
+      have hm : w ∈ s.writers := List.mem_iff_getElem?.2 ⟨k, hk⟩
+      have hdt : dat w.base ≠ tmp w.base := (hbase w.base w.base).2.2
+      refine ⟨refines_intro ?_ ?_ ?_, FSWF_mv hw v4 _, ?_⟩
+      · intro x
+        show PtrOK _ (if x = w.base then _ else spec x) x
+        by_cases hx : x = w.base
+        · subst hx
+          rw [if_pos rfl, v1]
+          refine ⟨⟨w.ino, ?_, v5⟩, ?_⟩
+          · show (s.fs.mv _ _ _).lookup _ = _
+            rw [lookup_mv, if_pos rfl]
+          · show (s.fs.mv _ _ _).lookup _ = _
+            rw [lookup_mv, if_neg (Ne.symm hdt), if_pos rfl]
+        · rw [if_neg hx]
+          have hd : dat x ≠ dat w.base := fun e => hx ((hbase x w.base).1 e)
+          have ht : tmp x ≠ tmp w.base := fun e => hx ((hbase x w.base).2.1 e)
+          refine (refines_ptr hr x).frame ?_ ?_ (fun _ _ => rfl) ?_
+          · show (s.fs.mv _ _ _).lookup _ = _
+            rw [lookup_mv, if_neg hd, if_neg (hbase x w.base).2.2]
+          · show (s.fs.mv _ _ _).lookup _ = _
+            rw [lookup_mv, if_neg (fun e => (hbase w.base x).2.2 e.symm), if_neg ht]
+          · intro w' hm' hb' _
+            exact mem_set_of_base_ne hk hm' (by rw [hb']; exact hx)
+      · intro w' hm' ho'
+        obtain ⟨j, hj⟩ := List.mem_iff_getElem?.1 hm'
+        obtain ⟨hjk, hj'⟩ := getElem?_set_open hj rfl ho'
+        have hm0 : w' ∈ s.writers := List.mem_iff_getElem?.2 ⟨j, hj'⟩
+        obtain ⟨bs', hs'⟩ := hr.2.1 w' hm0 ho'
+        have hx : w'.base ≠ w.base := fun e => hjk (hr.2.2.2 j k w' w hj' hk ho' hc e)
+        show ∃ b, (if w'.base = w.base then _ else spec w'.base) = PStatus.writing b
+        rw [if_neg hx]; exact ⟨_, hs'⟩
+      · intro k1 k2 w1 w2 h1 h2 o1 o2 hb
+        obtain ⟨_, h1'⟩ := getElem?_set_open h1 rfl o1
+        obtain ⟨_, h2'⟩ := getElem?_set_open h2 rfl o2
+        exact hr.2.2.2 k1 k2 w1 w2 h1' h2' o1 o2 hb
+      · intro w' hm'
+        show w'.ino < s.fs.next
+        rcases List.mem_or_eq_of_mem_set hm' with h | h
+        · exact hwr w' h
+        · subst h; exact hwr w hm
+
+theorem step_abort {s : St} {spec : String → PStatus} (hbase : HBase) (hg : Good s spec) (k : Nat)
+    (ha : Allowed s (.abort k)) :
+    Good (step s (.abort k)).1 (specStep spec s (.abort k) (step s (.abort k)).2) := by
+  cases hk : s.writers[k]? with
+  | none => simp only [step, hk, specStep]; exact hg
+  | some w =>
+    cases hp : w.published with
+    | true => simp [step, hk, specStep, hp]; exact hg
+    | false =>
+      have hc : w.closed = false := by
+        rcases ha w hk with h | h
+        · exact h
+        · rw [hp] at h; cases h
+      obtain ⟨hr, hw, hwr⟩ := hg
+      obtain ⟨old, r, v1, v2, v3, v4, v5⟩ := open_view hr hk hc
+      simp only [step, hk, specStep, hp, Bool.false_eq_true, if_false, setWriter]
+      have hm : w ∈ s.writers := List.mem_iff_getElem?.2 ⟨k, hk⟩
+      have hdt : dat w.base ≠ tmp w.base := (hbase w.base w.base).2.2
+      refine ⟨refines_intro ?_ ?_ ?_, FSWF_remove (FSWF_remove hw _) _, ?_⟩
+      · intro x
+        show PtrOK _ (if x = w.base then _ else spec x) x
+        by_cases hx : x = w.base
+        · subst hx
+          rw [if_pos rfl]
+          refine ⟨?_, ?_⟩
+          · show ((s.fs.remove _).remove _).lookup _ = _
+            rw [lookup_remove, if_pos rfl]
+          · show ((s.fs.remove _).remove _).lookup _ = _
+            rw [lookup_remove, if_neg (Ne.symm hdt), lookup_remove, if_pos rfl]
+        · rw [if_neg hx]
+          have hd : dat x ≠ dat w.base := fun e => hx ((hbase x w.base).1 e)
+          have ht : tmp x ≠ tmp w.base := fun e => hx ((hbase x w.base).2.1 e)
+          refine (refines_ptr hr x).frame ?_ ?_ (fun _ _ => rfl) ?_
+          · show ((s.fs.remove _).remove _).lookup _ = _
+            rw [lookup_remove, if_neg hd, lookup_remove, if_neg (hbase x w.base).2.2]
+          · show ((s.fs.remove _).remove _).lookup _ = _
+            rw [lookup_remove, if_neg (fun e => (hbase w.base x).2.2 e.symm), lookup_remove, if_neg ht]
+          · intro w' hm' hb' _
+            exact mem_set_of_base_ne hk hm' (by rw [hb']; exact hx)
+      · intro w' hm' ho'
+        obtain ⟨j, hj⟩ := List.mem_iff_getElem?.1 hm'
+        obtain ⟨hjk, hj'⟩ := getElem?_set_open hj rfl ho'
+        have hm0 : w' ∈ s.writers := List.mem_iff_getElem?.2 ⟨j, hj'⟩
+        obtain ⟨bs', hs'⟩ := hr.2.1 w' hm0 ho'
+        have hx : w'.base ≠ w.base := fun e => hjk (hr.2.2.2 j k w' w hj' hk ho' hc e)
+        show ∃ b, (if w'.base = w.base then _ else spec w'.base) = PStatus.writing b
+        rw [if_neg hx]; exact ⟨_, hs'⟩
+      · intro k1 k2 w1 w2 h1 h2 o1 o2 hb
+        obtain ⟨_, h1'⟩ := getElem?_set_open h1 rfl o1
+        obtain ⟨_, h2'⟩ := getElem?_set_open h2 rfl o2
+        exact hr.2.2.2 k1 k2 w1 w2 h1' h2' o1 o2 hb
+      · intro w' hm'
+        show w'.ino < s.fs.next
+        rcases List.mem_or_eq_of_mem_set hm' with h | h
+        · exact hwr w' h
+        · subst h; exact hwr w hm
+
+theorem step_tombstone {s : St} {spec : String → PStatus} (hbase : HBase) (hg : Good s spec) (b : String)
+    (ha : Allowed s (.tombstone b)) :
+    Good (step s (.tombstone b)).1 (specStep spec s (.tombstone b) (step s (.tombstone b)).2) := by
+  obtain ⟨hr, hw, hwr⟩ := hg
+  simp only [step, specStep]
+  have hdt : dat b ≠ tmp b := (hbase b b).2.2
+  refine ⟨refines_intro ?_ ?_ hr.2.2.2, FSWF_remove (FSWF_remove hw _) _, hwr⟩
+  · intro x
+    show PtrOK _ (if x = b then _ else spec x) x
+    by_cases hx : x = b
+    · subst hx
+      rw [if_pos rfl]
+      refine ⟨?_, ?_⟩
+      · show ((s.fs.remove _).remove _).lookup _ = _
+        rw [lookup_remove, if_neg hdt, lookup_remove, if_pos rfl]
+      · show ((s.fs.remove _).remove _).lookup _ = _
+        rw [lookup_remove, if_pos rfl]
+    · rw [if_neg hx]
+      have hd : dat x ≠ dat b := fun e => hx ((hbase x b).1 e)
+      have ht : tmp x ≠ tmp b := fun e => hx ((hbase x b).2.1 e)
+      refine (refines_ptr hr x).frame ?_ ?_ (fun _ _ => rfl) (fun w' hm' _ _ => hm')
+      · show ((s.fs.remove _).remove _).lookup _ = _
+        rw [lookup_remove, if_neg (hbase x b).2.2, lookup_remove, if_neg hd]
+      · show ((s.fs.remove _).remove _).lookup _ = _
+        rw [lookup_remove, if_neg ht, lookup_remove, if_neg (fun e => (hbase b x).2.2 e.symm)]
+  · intro w' hm' ho'
+    obtain ⟨bs', hs'⟩ := hr.2.1 w' hm' ho'
+    have hx : w'.base ≠ b := by
+      intro e; have := ha w' hm' e; rw [this] at ho'; cases ho'
+    show ∃ bs, (if w'.base = b then _ else spec w'.base) = PStatus.writing bs
+    rw [if_neg hx]; exact ⟨_, hs'⟩
+
+theorem step_open {s : St} {spec : String → PStatus} (hg : Good s spec) (b : String) :
+    Good (step s (.open_ b)).1 (specStep spec s (.open_ b) (step s (.open_ b)).2) := by
+  cases hl : s.fs.lookup (dat b) with
+  | none => simp only [step, hl, specStep]; exact hg
+  | some i => simp only [step, hl, specStep]; exact hg
 
 theorem refines_step_aux (s : St) (spec : String → PStatus) (op : Op)
     (hbase : ∀ b1 b2 : String, (dat b1 = dat b2 → b1 = b2) ∧ (tmp b1 = tmp b2 → b1 = b2) ∧ dat b1 ≠ tmp b2)
     (hr : Refines s spec) (hw : FSWF s.fs) (hwr : ∀ w ∈ s.writers, w.ino < s.fs.next) (ha : Allowed s op) :
     Refines (step s op).1 (specStep spec s op (step s op).2) ∧ FSWF (step s op).1.fs ∧
     (∀ w ∈ (step s op).1.writers, w.ino < (step s op).1.fs.next) := by
-  sorry
+  have hg : Good s spec := ⟨hr, hw, hwr⟩
+  cases op with
+  | create draws => exact step_create hbase hg draws
+  | write k bs => exact step_write hbase hg k bs
+  | close k => exact step_close hbase hg k
+  | abort k => exact step_abort hbase hg k ha
+  | tombstone b => exact step_tombstone hbase hg b ha
+  | open_ b => exact step_open hg b
 
 /-- Witness of the excluded point: tombstone a pointer while its writer is open, let CreateFile
     redraw the name, then Close the first writer — it reports success and publishes the second
@@ -72,6 +824,6 @@ theorem refines_step_aux (s : St) (spec : String → PStatus) (op : Op)
 theorem tombstone_while_open_exposes_aux :
     let ops : List Op := [.create ["x"], .write 0 [1, 1], .tombstone "x", .create ["x"], .write 1 [9], .close 0, .open_ "x"]
     (runOps {} ops).2 = [.created "x", .ok, .ok, .created "x", .ok, .ok, .data [9]] := by
-  sorry
+  decide
 
 end BloomVerif.FSStore
